@@ -85,4 +85,50 @@ theorem levIter_error_of_zero {r : List K} {m p : ℕ} {A : List K} (hA : levIte
   simp only [levIter, hA]
   exact he
 
+/-- the prediction error after pass m+1: `E' = E − Δ²/E` with `Δ = ⟨A, z^-(m+1)⟩` -/
+theorem levStep_error {r : List K} {m : ℕ} {A A' : List K} (h : LevInv r m A)
+    (hs : levStep r (m + 1) A = .ok A') :
+    inner r A' A' = inner r A A - (Nf r (coef A) (m + 2) (m + 1)) ^ 2 / inner r A A := by
+  have hinv' := levStep_inv h hs
+  rw [hinv'.inner_self, h.inner_self]
+  unfold levStep at hs
+  simp only at hs
+  split at hs
+  · cases hs
+  · next hden =>
+    injection hs with hs
+    subst hs
+    have htop : coef A (m + 1) = 0 := h.coef_top _ le_rfl
+    have hB : ∀ j, j ≤ m + 1 → coef (revShift (m + 1) A) j = coef A (m + 1 - j) :=
+      fun j hj => by rw [coef_revShift, if_pos hj]
+    rw [h.inner_rev] at hden
+    rw [h.inner_rev, inner_delay r A (m + 1) (h.len.trans (by omega))]
+    have hfun : coef (subScaled A (Nf r (coef A) (m + 1 + 1) (m + 1) / Nf r (coef A) (m + 1) 0)
+        (revShift (m + 1) A)) = fun j => coef A j -
+          Nf r (coef A) (m + 1 + 1) (m + 1) / Nf r (coef A) (m + 1) 0 * coef (revShift (m + 1) A) j :=
+      funext fun j => coef_subScaled _ _ _ _
+    rw [hfun, Nf_sub_smul, Nf_reflect r (m + 1) (coef A) _ hB 0 (by omega), Nat.sub_zero,
+      Nf_succ_of_zero r (coef A) (m + 1) 0 htop]
+    field_simp
+
+omit [DecidableEq K] in
+/-- the normal equations in the matrix form of the docstring (`R . a = -r`, R Toeplitz) -/
+theorem yuleWalker_matrix_form (r a : List K) (p : ℕ) (h : IsYuleWalker r a p) (R : List K)
+    (hR : ∀ k, k < p → coef R k = coef r k) (i : ℕ) (hi : i < p) :
+    ∑ j ∈ range p, coef R (adiff j i) * coef a (j + 1) = - coef r (i + 1) := by
+  have h1 := h.2.2 (i + 1) (by omega) (by omega)
+  rw [neResidual_eq] at h1
+  unfold Nf at h1
+  rw [Finset.sum_range_succ', h.1, one_mul] at h1
+  have : adiff (i + 1) 0 = i + 1 := by simp [adiff]
+  rw [this] at h1
+  rw [eq_neg_iff_add_eq_zero, ← h1]
+  congr 1
+  refine Finset.sum_congr rfl fun j hj => ?_
+  have hj' : j < p := by simpa using hj
+  have e : adiff (i + 1) (j + 1) = adiff j i := by unfold adiff; split <;> split <;> omega
+  have hlt : adiff j i < p := by unfold adiff; split <;> omega
+  rw [e, hR _ hlt]
+  ring
+
 end ALV.C10
